@@ -14,6 +14,10 @@ pub fn build(family: &str, rng: &mut Rng, index: u64) -> Option<Plan> {
 		"F4" => Some(f4(rng, index)),
 		// issuance swarm: standard hooks (C01/C04/C05/C13) and generated hook tables (C10)
 		"F1" => Some(super::f1::build(rng, &super::f1::F1Opts { max_certs: 3, max_ids: 8, generated_hooks: false, hard_hook_failures: false, owners: true, eab: true, allow_rsa4096: index % 97 == 0 })),
+		"F6" => Some(super::f6::random(rng)),
+		"F6x" => super::f6::exhaustive(index),
+		"F6c" => Some(super::f6::crash_mid_save(rng)),
+		"F6t" => super::f6::truncation(index),
 		"F7" => Some(f7(rng, index)),
 		"F5" => Some(f5(rng, index)),
 		"F1w" => Some(f1w(rng, index)),
